@@ -145,7 +145,7 @@ theorem place_over_hole {g1 : Forest} (hi1 : g1.Inv) {a b ref' : Nat} {bv av : V
       rw [hC]
       refine ((handlesList_plug_perm _ _).append_right _).trans
         (List.Perm.trans ?_ ((handlesList_plug_perm _ _).symm.append_right _))
-      simp only [fi_handlesList_append, handlesList_cons, handlesList_nil, List.append_nil, List.append_assoc]
+      simp only [fi_handlesList_append, fi_handlesList_cons, fi_handlesList_nil, List.append_nil, List.append_assoc]
       refine List.Perm.append_left _ (List.Perm.append_left _ (List.Perm.append_left _ ?_))
       -- Bn ++ (rC ++ A')  ~  A' ++ (rC ++ Bn)
       have : ∀ (x y z : List Nat), (x ++ (y ++ z)).Perm (z ++ (y ++ x)) := by
